@@ -14,7 +14,7 @@ PLATFORMS = {
         "segs": ["groups", "posts", "permalink", "photos", "videos", "people", "watch", "photo.php", "permalink.php", "story.php",
                  "profile.php", "photo", "l.php", "handle", "123456789", "1234", "a.123", "some.handle", ""],
         "queries": ["", "?v=123456789", "?v=", "?v", "?id=123456789", "?story_fbid=1234&id=123456789", "?story_fbid=1234", "?id=",
-                    "?fbid=1234", "?fbid=1234&set=g.123456789", "?fbid=1234&set=a.55", "?set=a.55", "?u=http%3A%2F%2Fb.com&h=x",
+                    "?fbid=1234", "?fbid=1234&set=g.123456789", "?fbid=1234&set=a.55", "?fbid=1234&set=g.123456789&set=a.55", "?set=a.55", "?u=http%3A%2F%2Fb.com&h=x",
                     "?u=", "?next=/x", "?fbid=", "?id=123456789&story_fbid=1234", "?x=1&amp;id=5&amp;story_fbid=7"],
         "frags": ["", "#f"],
         "opts": [{}, {"allow_relative_urls": True}],
